@@ -26,12 +26,32 @@ type Obligation struct {
 	Result *SolveResult
 	Extra  []string // extra lines local to this obligation (axiom instances etc.)
 	Keep   bool
+	// replay support: the leaf terms of the values returned at this obligation's return site
+	ResultLeaves []ReplayLeaf
+	Params       []ReplayParam
 	ExtraFn func(rel map[string]bool, level int) []string
 	Levels  int // number of axiom-instance levels (1 = only level 0)
 	TimeoutS int // per-obligation solver timeout override (0 = default)
 }
 
+// ReplayLeaf names one scalar of a parameter or result together with its Go type.
+type ReplayLeaf struct {
+	Term string // SMT term (constant name or literal)
+	Path string // e.g. "[1]", ".hi"
+	Type string // Go basic type name: uint64, int16, bool, ...
+}
+
+// ReplayParam describes one parameter of the function under contract.
+type ReplayParam struct {
+	Name     string
+	GoType   string // type expression usable inside the package
+	Leaves   []ReplayLeaf
+	Receiver bool
+	Unsupported string
+}
+
 type VC struct {
+	Params []ReplayParam
 	Func   string
 	Mode   string // "int" or "bv"
 	lines  []string
